@@ -481,6 +481,10 @@ class EIG(BaseRoutine):
             logger.error('No dynamic model. Eig analysis will not continue.')
             status = False
 
+        if system.TDS.test_ok is False:
+            logger.error('Initialization failed. Eig analysis will not continue.')
+            status = False
+
         return status
 
     @check_conn_before_init
